@@ -1,4 +1,5 @@
 import ShootVerif.Model.RestCall
+import ShootVerif.Model.Retry
 /-
 C10 — the property as an executable statement, written from its text:
 
@@ -62,6 +63,8 @@ def specResult (shape : Shape) (s : Int) (b : Body) : ResClass :=
 
 def spec (shape : Shape) : Transport → Obs
   | .fault f => ⟨some (.transport f), false, false, if shape = .none then .absent else .zeroish⟩
+  -- "whenever a response was received it is returned next to the error"
+  | .respErr _ => ⟨some .redirect, false, true, if shape = .none then .absent else .zeroish⟩
   | .resp s b =>
     let e := specErr shape s b
     ⟨e, e = some .client ∨ e = some .server, true, specResult shape s b⟩
@@ -76,5 +79,32 @@ not-supported). Advisory there: implementation and model are still compared. -/
 def WF : Transport → Bool
   | .fault _ => true
   | .resp s _ => s < 600
+  | .respErr _ => false
+
+/-- F_respWithError: `client.Do` hands back a response together with an error (a CheckRedirect policy
+    refusing a 3xx redirect). The property's sentence "whenever a response was received it is returned
+    next to the error" is universal and 3xx is inside the status range, so this is inside the property;
+    the emitted `if err != nil { return nil…, err }` right after `Do` drops the response. -/
+def F_respWithError : Transport → Bool
+  | .respErr _ => true
+  | _ => false
+
+/-! ## a client whose middleware chain contains RetryMiddleware(n, 0)
+
+The base transport answers a script (per round trip: an error, or a response with a status and a
+body class). What `client.Do` hands to the generated code is the result of the retry loop (model:
+`Retry.retry`, property C20); `http.Client.Do` ignores a response that comes with an error. -/
+
+def effective (sts : List (Retry.Outcome × Body)) (n : Nat) : Transport :=
+  let script : Nat → Retry.Outcome := fun i => (sts.map (·.1)).getD i .err
+  let ret := (Retry.retry script (n : Int)).2
+  match ret.err, ret.resp with
+  | some _, _ => .fault .refused
+  | none, some i =>
+    (match sts.getD i (.err, .empty) with
+      | (.resp s, b) => .resp (s : Int) b
+      | (.errResp s, b) => .resp (s : Int) b
+      | (.err, _) => .fault .refused)
+  | none, none => .fault .refused
 
 end ShootVerif.RestCall
